@@ -2,7 +2,11 @@ import Clem.Proofs.T4
 import Mathlib.Data.List.Perm.Basic
 import Mathlib.Data.List.Nodup
 
-/-! Order-independence of `_combine_by_ckey` under exact arithmetic and injective string keys. -/
+/-!
+Order-independence of `_combine_by_ckey` (repaired: contributions summed in sorted order).
+Needs NO arithmetic law: only that the carrier's `≤` (the one `sorted` uses) is a total order on the
+values at hand — true of IEEE floats without NaN (up to the sign of zero) — and injective string keys.
+-/
 set_option linter.unusedSectionVars false
 
 namespace Clem.T4
@@ -25,32 +29,50 @@ theorem delta_ext {a b : Delta α} (h1 : a.kind = b.kind) (h2 : a.id = b.id) (h3
 def CkeyInjective (ds : List (Delta α)) : Prop :=
   ∀ a ∈ ds, ∀ b ∈ ds, ckey a = ckey b → a.kind = b.kind ∧ a.id = b.id ∧ a.attr = b.attr
 
-section OrderedField
-variable [Field α] [LinearOrder α] [IsStrictOrderedRing α]
+/-- The carrier's `≤` is a total order (what `sorted` needs for a canonical result).  Holds at every
+ordered field; at `Float` it holds on NaN-free values up to the sign of zero. -/
+structure LeTotalOrder (α : Type) [Num α] : Prop where
+  total : ∀ a b : α, Num.le a b = true ∨ Num.le b a = true
+  trans : ∀ a b c : α, Num.le a b = true → Num.le b c = true → Num.le a c = true
+  antisymm : ∀ a b : α, Num.le a b = true → Num.le b a = true → a = b
+
+section AnyCarrier
+variable [Num α]
+
+theorem sumSorted_perm (ho : LeTotalOrder α) {vs vs' : List α} (hp : vs.Perm vs') :
+    sumSorted vs = sumSorted vs' := by
+  unfold sumSorted
+  rw [isort_perm_invariant Num.le ho.total ho.trans hp (fun a _ b _ => ho.antisymm a b)]
 
 /-- the merged entry as a function of the whole group `g` and its first element `d` -/
-def aggOf (g : List (Delta α)) (d : Delta α) : Delta α :=
-  ⟨d.kind, d.id, d.attr, (g.map (·.delta)).sum, (g.map (·.opIdx)).foldl minOpt none,
+def aggC (g : List (Delta α)) (d : Delta α) : Delta α :=
+  ⟨d.kind, d.id, d.attr, sumSorted (g.map (·.delta)), (g.map (·.opIdx)).foldl minOpt none,
    (g.map (·.idx)).foldl minOpt none⟩
 
-theorem foldl_merge_eq_aggOf (rest : List (Delta α)) (d : Delta α) :
-    rest.foldl merge d = aggOf (d :: rest) d := by
-  obtain ⟨h1, h2, h3, h4, h5, h6⟩ := foldl_merge_fields rest d
+theorem canonEntry_eq_aggC (ds : List (Delta α)) (rest : List (Delta α)) (d : Delta α)
+    (hg : grp (ckey d) ds = d :: rest) : canonEntry ds (rest.foldl merge d) = aggC (d :: rest) d := by
+  obtain ⟨h1, h2, h3, _, h5, h6⟩ := foldl_merge_fields rest d
   refine delta_ext h1 h2 h3 ?_ ?_ ?_
-  · rw [h4, foldl_add_delta]; simp [aggOf]
-  · rw [h5]; simp [aggOf, List.foldl_map, minOpt_none_left]
-  · rw [h6]; simp [aggOf, List.foldl_map, minOpt_none_left]
+  · show sumSorted (contribs (ckey (rest.foldl merge d)) ds) = _
+    rw [ckey_foldl_merge, contribs]
+    have : ds.filter (fun x => ckey x == ckey d) = d :: rest := hg
+    rw [this]; rfl
+  · show (rest.foldl merge d).opIdx = _
+    rw [h5]; simp [aggC, List.foldl_map, minOpt_none_left]
+  · show (rest.foldl merge d).idx = _
+    rw [h6]; simp [aggC, List.foldl_map, minOpt_none_left]
 
-theorem aggOf_perm {g g' : List (Delta α)} (hp : g.Perm g') {d d' : Delta α}
-    (hk : d.kind = d'.kind) (hi : d.id = d'.id) (ha : d.attr = d'.attr) : aggOf g d = aggOf g' d' := by
+theorem aggC_perm (ho : LeTotalOrder α) {g g' : List (Delta α)} (hp : g.Perm g') {d d' : Delta α}
+    (hk : d.kind = d'.kind) (hi : d.id = d'.id) (ha : d.attr = d'.attr) : aggC g d = aggC g' d' := by
   refine delta_ext hk hi ha ?_ ?_ ?_
-  · exact (hp.map _).sum_eq
+  · exact sumSorted_perm ho (hp.map _)
   · exact (hp.map _).foldl_eq none
   · exact (hp.map _).foldl_eq none
 
-theorem combineAcc_mem_of_perm {ds ds' : List (Delta α)} (hp : ds.Perm ds') (hinj : CkeyInjective ds)
-    {e : Delta α} (he : e ∈ combineAcc ds) : e ∈ combineAcc ds' := by
-  obtain ⟨d, rest, hg, rfl⟩ := combineAcc_spec ds he
+theorem combineC_mem_of_perm (ho : LeTotalOrder α) {ds ds' : List (Delta α)} (hp : ds.Perm ds')
+    (hinj : CkeyInjective ds) {e : Delta α} (he : e ∈ combineC ds) : e ∈ combineC ds' := by
+  obtain ⟨e₀, he₀, rfl⟩ := List.mem_map.1 he
+  obtain ⟨d, rest, hg, rfl⟩ := combineAcc_spec ds he₀
   have hke : ckey (rest.foldl merge d) = ckey d := ckey_foldl_merge _ _
   rw [hke] at hg
   have hd : d ∈ ds := (List.mem_filter.1 (by rw [grp] at hg; rw [hg]; simp : d ∈ ds.filter _)).1
@@ -65,30 +87,39 @@ theorem combineAcc_mem_of_perm {ds ds' : List (Delta α)} (hp : ds.Perm ds') (hi
   obtain ⟨t1, t2, t3⟩ := hinj d' (hp.symm.subset hd') d hd hkd'
   have hgp : (d' :: rest').Perm (d :: rest) := by
     rw [← hg, ← hg']; exact (hp.filter _).symm
-  have : e' = rest.foldl merge d := by
-    rw [he'eq, foldl_merge_eq_aggOf, foldl_merge_eq_aggOf]
-    exact aggOf_perm hgp t1 t2 t3
-  rw [← this]; exact he'
+  have hg'' : grp (ckey d') ds' = d' :: rest' := by rw [hkd']; exact hg'
+  have : canonEntry ds' e' = canonEntry ds (rest.foldl merge d) := by
+    rw [he'eq, canonEntry_eq_aggC ds' rest' d' hg'', canonEntry_eq_aggC ds rest d hg]
+    exact aggC_perm ho hgp t1 t2 t3
+  rw [← this]; exact List.mem_map_of_mem he'
 
 theorem CkeyInjective.perm {ds ds' : List (Delta α)} (hp : ds.Perm ds') (h : CkeyInjective ds) :
     CkeyInjective ds' :=
   fun a ha b hb => h a (hp.symm.subset ha) b (hp.symm.subset hb)
 
-theorem combineAcc_perm {ds ds' : List (Delta α)} (hp : ds.Perm ds') (hinj : CkeyInjective ds) :
-    (combineAcc ds).Perm (combineAcc ds') := by
-  rw [List.perm_ext_iff_of_nodup (List.Nodup.of_map _ (nodup_keys_combineAcc ds))
-    (List.Nodup.of_map _ (nodup_keys_combineAcc ds'))]
+theorem combineC_perm (ho : LeTotalOrder α) {ds ds' : List (Delta α)} (hp : ds.Perm ds')
+    (hinj : CkeyInjective ds) : (combineC ds).Perm (combineC ds') := by
+  rw [List.perm_ext_iff_of_nodup (List.Nodup.of_map _ (nodup_keys_combineC ds))
+    (List.Nodup.of_map _ (nodup_keys_combineC ds'))]
   intro e
-  exact ⟨combineAcc_mem_of_perm hp hinj, combineAcc_mem_of_perm hp.symm (hinj.perm hp)⟩
+  exact ⟨combineC_mem_of_perm ho hp hinj, combineC_mem_of_perm ho hp.symm (hinj.perm hp)⟩
 
-/-- `_combine_by_ckey` does not depend on the listing order (exact arithmetic, injective keys). -/
-theorem combine_perm_invariant {ds ds' : List (Delta α)} (hp : ds.Perm ds') (hinj : CkeyInjective ds) :
-    combine ds = combine ds' := by
-  unfold combine
+/-- `_combine_by_ckey` does not depend on the listing order: injective keys + a totally ordered
+carrier; no associativity, no exact arithmetic. -/
+theorem combine_perm_invariant (ho : LeTotalOrder α) {ds ds' : List (Delta α)} (hp : ds.Perm ds')
+    (hinj : CkeyInjective ds) : combine ds = combine ds' := by
+  show isort ckeyLe (combineC ds) = isort ckeyLe (combineC ds')
   refine isort_perm_invariant ckeyLe (fun a b => lexLe_total _ _) (fun a b c => lexLe_trans _ _ _)
-    (combineAcc_perm hp hinj) ?_
+    (combineC_perm ho hp hinj) ?_
   intro a ha b hb h1 h2
-  exact List.inj_on_of_nodup_map (nodup_keys_combineAcc ds) ha hb (lexLe_antisymm _ _ h1 h2)
+  exact List.inj_on_of_nodup_map (nodup_keys_combineC ds) ha hb (lexLe_antisymm _ _ h1 h2)
 
-end OrderedField
+end AnyCarrier
+
+/-- every ordered field is a totally ordered carrier -/
+theorem leTotalOrder_field [Field α] [LinearOrder α] : LeTotalOrder α where
+  total a b := by simpa using le_total a b
+  trans a b c := by simpa using @le_trans α _ a b c
+  antisymm a b := by simpa using @le_antisymm α _ a b
+
 end Clem.T4
